@@ -912,6 +912,14 @@ pub fn sleep_ns(d: u64) {
     }
 }
 
+/// a scheduling point without any other effect (harness-level caller threads)
+pub fn yield_now() {
+    let (k, me) = cur();
+    let g = k.lock();
+    let mut g = yield_point(&k, g, me);
+    g.log(me, "yield", 0, 0);
+}
+
 pub fn count_fault(kind: &'static str) {
     if let Some((k, _)) = try_cur() {
         k.lock().history.fault(kind);
